@@ -15,6 +15,19 @@ Theorem c14_clean_is_filter : forall t,
 Proof. exact clean_is_filter. Qed.
 Print Assumptions c14_clean_is_filter.
 
+(* id look-ups after CleanSections answer from the component list as it is THEN: the first NON-marker
+   component with that id (a removed marker is no longer found); a component that was found before and
+   is not a marker is found unchanged. *)
+Theorem c14_lookups_after_clean : forall t id,
+  find_hwc id (clean_sections t) = find (fun h => (hId h =? id) && negb (is_marker h)) (tpHWc t).
+Proof. exact lookups_after_clean. Qed.
+Print Assumptions c14_lookups_after_clean.
+
+Theorem c14_lookup_kept_after_clean : forall t id h,
+  find_hwc id t = Some h -> is_marker h = false -> find_hwc id (clean_sections t) = Some h.
+Proof. exact lookup_kept_after_clean. Qed.
+Print Assumptions c14_lookup_kept_after_clean.
+
 Theorem c14_clean_meets_spec : forall t, clean_ok t (clean_sections t) = true.
 Proof. exact clean_meets_spec. Qed.
 Print Assumptions c14_clean_meets_spec.
